@@ -74,6 +74,39 @@ fn shape(g: &Graph) -> String {
     s
 }
 
+/// Trace coverage: every edge the graph dump knows (it reads the fields of each object directly)
+/// must also be followed by `Trace` (hook `verif_walk` runs the real tracer from the thread's
+/// roots).  A child the dump reaches through a parent the tracer visited, but the tracer never
+/// marked, is a field `Trace` forgets: the next collection frees it while it is reachable.
+fn trace_coverage(vm: &RootedThread, g: &Graph) -> Vec<(String, String)> {
+    let walked: HashSet<usize> = vm.verif_walk().iter().map(|n| n.addr).collect();
+    let idx: HashMap<usize, usize> = g.nodes.iter().enumerate().map(|(i, n)| (n.addr, i)).collect();
+    let mut out: Vec<(String, String)> = vec![];
+    if let GraphEdge::Ptr(a) = &g.root {
+        if !walked.contains(a) {
+            out.push(("trace-missing:root".into(), format!("the handle's own object {:#x} is not reached from the thread's roots", a)));
+            return out;
+        }
+    }
+    for n in &g.nodes {
+        if n.freed || !walked.contains(&n.addr) {
+            continue;
+        }
+        for (i, e) in n.edges.iter().enumerate() {
+            if let GraphEdge::Ptr(a) = e {
+                if !walked.contains(a) {
+                    let child = idx.get(a).map(|j| g.nodes[*j].kind.clone()).unwrap_or("?".into());
+                    let key = format!("trace-missing:{}->{}", n.kind, child);
+                    if !out.iter().any(|(k, _)| k == &key) {
+                        out.push((key, format!("field {} of a `{}` points to a `{}` that the tracer does not mark although it visits the `{}`", i, n.kind, child, n.kind)));
+                    }
+                }
+            }
+        }
+    }
+    out
+}
+
 fn sh_int(i: i64) -> String {
     format!("root=int:{}", i)
 }
@@ -91,6 +124,10 @@ enum Step {
     /// run_expr(src); `expect`: the rendering the generator knows (None: only compared across
     /// strides); `hold`: the host keeps the handle and re-renders it at every later CheckHandles
     Eval { src: String, expect: Option<String>, hold: bool, guard: Option<String> },
+    /// host: v = run_expr(src) (an IO action is run: `ref x` gives the Reference); the value is
+    /// registered as the global `module` (`set_global`: deep clone into the generation-0 heap, the
+    /// same promotion a loaded module's value goes through)
+    DefineCell { module: String, src: String },
     /// explicit Thread::collect()
     Collect,
     /// every held handle must render as it did when it was taken
@@ -117,8 +154,31 @@ fn garbage(rng: &mut Rng) -> (String, i64) {
     (format!("{}{}sum (build {} {} N)", HDR, LIST, k, n), k * n * (n + 1) / 2)
 }
 
+/// helpers for the container families: strings built at run time (literals live in generation 0 and
+/// are never freed by a thread collection) and a loop that allocates garbage of the same sizes, so
+/// that collections happen while the container is live and freed blocks get reused
+const LIB: &str = "let { channel, send, recv } = import! std.channel\nlet mk s = append s \"-sfx\"\nlet keep a b = b\nrec let churn n acc : Int -> String -> String =\n    if n #Int== 0 then acc\n    else churn (n #Int- 1) (append \"ZZZZZ\" \"-sfx\")\nin\n";
+
+/// Values that are reachable ONLY through a container; `body` sees `mk`, `churn`, `keep`, `arr`.
+fn container_values() -> Vec<(&'static str, &'static str)> {
+    vec![
+        ("array-string", "[mk \"alpha\", mk \"gamma\", mk \"delta\", mk \"omega\"]"),
+        ("array-string-show", "[show 1, show 22, append (show 333) \"x\"]"),
+        ("array-records", "[{ s = mk \"ra\", n = 1 }, { s = mk \"rb\", n = 2 }]"),
+        ("array-arrays-strings", "[[mk \"aa\"], [mk \"ab\", mk \"ac\"], [\"lit\", mk \"ad\"]]"),
+        ("array-closures", "let s1 = mk \"c1\"\nlet s2 = mk \"c2\"\n[\\x -> keep s1 x, \\x -> keep s2 (x #Int+ 1)]"),
+        ("array-papps", "[append (mk \"p1\"), append (mk \"p2\"), keep (mk \"p3\")]"),
+        ("array-in-record-in-array", "[{ xs = [mk \"na\", mk \"nb\"], k = 1 }, { xs = [mk \"nc\"], k = 2 }]"),
+        ("record-late-pointer", "{ a = 1, b = 2.5, c = 3b, d = mk \"late\" }"),
+        ("variant-late-pointer", "type T = | T Int Float Byte String\n[T 1 2.5 3b (mk \"v1\"), T 2 3.5 4b (mk \"v2\")]"),
+        ("record-of-arrays", "{ names = [mk \"n1\", mk \"n2\"], nums = [1, 2, 3], fl = [1.5], by = [1b, 2b], nest = [[mk \"n3\"]] }"),
+        ("closure-over-array-string", "let xs = [mk \"u1\", mk \"u2\"]\n\\i -> arr.index xs i"),
+        ("papp-over-array-string", "let pick xs i : Array String -> Int -> String = arr.index xs i\npick [mk \"q1\", mk \"q2\"]"),
+    ]
+}
+
 fn gen_prog(rng: &mut Rng, idx: usize) -> Prog {
-    let fam = idx % 12;
+    let fam = idx % 21;
     let mut steps = vec![];
     let ev = |src: String, expect: Option<String>| Step::Eval { src, expect, hold: false, guard: None };
     match fam {
@@ -205,7 +265,7 @@ fn gen_prog(rng: &mut Rng, idx: usize) -> Prog {
         7 | 8 => {
             // a module-level reference cell; the host stores fresh values into it
             let module = format!("c05cell{}", idx);
-            steps.push(Step::Load { module: module.clone(), src: format!("{}ref {{ v = 0, s = \"init\" }}", HDR) });
+            steps.push(Step::DefineCell { module: module.clone(), src: format!("{}ref {{ v = 0, s = \"init\" }}", HDR) });
             steps.push(Step::LoadCell { module: module.clone(), expect: "root=n0 | n0:data#record {v,s}(int:0,n1) | n1:string#init()".into() });
             for r in 0..rng.range(1, 3) {
                 let i = rng.range(1, 1000);
@@ -247,6 +307,96 @@ fn gen_prog(rng: &mut Rng, idx: usize) -> Prog {
             steps.push(Step::CheckHandles);
             Prog { family: "thread-lazy", steps }
         }
+        12 | 13 => {
+            // a container held ONLY by a host handle: collect, churn (reuse), collect, check
+            let vals = container_values();
+            let (name, body) = vals[(idx / 21 * 2 + (fam - 12)) % vals.len()];
+            let _ = name;
+            steps.push(Step::Eval { src: format!("{}{}{}", HDR, LIB, body), expect: None, hold: true, guard: None });
+            steps.push(Step::Collect);
+            let n = rng.range(50, 250);
+            steps.push(ev(format!("{}{}churn {} \"\"", HDR, LIB, n), Some(sh_string("ZZZZZ-sfx"))));
+            steps.push(Step::CheckHandles);
+            let (g, e) = garbage(rng);
+            steps.push(ev(g, Some(sh_int(e))));
+            steps.push(Step::Collect);
+            steps.push(Step::CheckHandles);
+            Prog { family: "container-host-held", steps }
+        }
+        14 | 15 => {
+            // a container held ONLY by a local variable of the running program while it allocates
+            let vals = container_values();
+            let (_, body) = vals[(idx / 21 * 2 + (fam - 14)) % vals.len()];
+            let n = rng.range(60, 300);
+            let src = format!("{}{}let kept =\n    {}\nlet filler = churn {} \"\"\n{{ kept, filler }}", HDR, LIB, body.replace('\n', "\n    "), n);
+            steps.push(Step::Eval { src, expect: None, hold: true, guard: None });
+            steps.push(Step::Collect);
+            steps.push(Step::CheckHandles);
+            Prog { family: "container-local", steps }
+        }
+        16 => {
+            // array of strings on the stack, read back element by element (the seeded-change demo)
+            let n = rng.range(60, 250);
+            let src = format!("{}{}let xs = [mk \"alpha\", mk \"gamma\", mk \"delta\", mk \"omega\"]\nlet filler = churn {} \"\"\n{{ first = arr.index xs 0, last = arr.index xs 3, n = arr.len xs, filler }}", HDR, LIB, n);
+            steps.push(Step::Eval {
+                src,
+                expect: Some("root=n0 | n0:data#record {first,last,n,filler}(n1,n2,int:4,n3) | n1:string#alpha-sfx() | n2:string#omega-sfx() | n3:string#ZZZZZ-sfx()".into()),
+                hold: true,
+                guard: None,
+            });
+            steps.push(Step::Collect);
+            steps.push(Step::CheckHandles);
+            Prog { family: "array-string-stack", steps }
+        }
+        17 => {
+            // values kept only in a channel queue while the program allocates
+            let n = rng.range(60, 250);
+            let src = format!(
+                "{}{}do ch = channel [\"\"]\ndo _ = send ch.sender [mk \"q1\", mk \"q2\"]\ndo _ = send ch.sender [mk \"q3\"]\nlet filler = churn {} \"\"\ndo a = recv ch.receiver\ndo b = recv ch.receiver\nwrap {{ a, b, filler, ch }}",
+                HDR, LIB, n
+            );
+            steps.push(Step::Eval { src, expect: None, hold: true, guard: None });
+            steps.push(Step::Collect);
+            steps.push(Step::CheckHandles);
+            Prog { family: "channel-only", steps }
+        }
+        18 => {
+            // values kept only in a reference / only in a forced lazy
+            let n = rng.range(60, 250);
+            let src = format!(
+                "{}{}do r = ref [mk \"r0\"]\ndo _ = r <- [mk \"r1\", mk \"r2\"]\nlet l = lazy (\\_ -> {{ xs = [mk \"l1\", mk \"l2\"], k = 7 }})\nlet k = (force l).k\nlet filler = churn {} \"\"\ndo x = load r\nwrap {{ x, forced = force l, k, filler, r, l }}",
+                HDR, LIB, n
+            );
+            steps.push(Step::Eval { src, expect: None, hold: true, guard: None });
+            steps.push(Step::Collect);
+            steps.push(Step::CheckHandles);
+            Prog { family: "cell-only", steps }
+        }
+        19 => {
+            // excess arguments: `f` takes one argument and allocates before returning the function
+            // that takes the other two; they wait in the excess-argument record meanwhile
+            let n = rng.range(60, 250);
+            let src = format!(
+                "{}{}let f x =\n    let filler = churn {} \"\"\n    \\a b -> {{ a, b, x, filler }}\nf 1 [mk \"e1\", mk \"e2\"] {{ s = mk \"e3\", t = [mk \"e4\"] }}",
+                HDR, LIB, n
+            );
+            steps.push(Step::Eval { src, expect: None, hold: true, guard: None });
+            steps.push(Step::Collect);
+            steps.push(Step::CheckHandles);
+            Prog { family: "excess-arguments", steps }
+        }
+        20 => {
+            // array of strings grown by append in a loop: every intermediate array holds run-time strings
+            let n = rng.range(2, 40);
+            let src = format!(
+                "{}{}rec let go i a = if i #Int== {} then a else go (i #Int+ 1) (arr.append a [append (show i) \"-e\"])\nin\nlet xs = go 1 [mk \"e\"]\nlet filler = churn 200 \"\"\n{{ xs, n = arr.len xs, filler }}",
+                HDR, LIB, n + 1
+            );
+            steps.push(Step::Eval { src, expect: None, hold: true, guard: None });
+            steps.push(Step::Collect);
+            steps.push(Step::CheckHandles);
+            Prog { family: "array-string-append", steps }
+        }
         _ => {
             // cyclic records and partial applications held across collections
             let n = rng.range(2, 30);
@@ -265,10 +415,38 @@ fn gen_prog(rng: &mut Rng, idx: usize) -> Prog {
     }
 }
 
+/// corpus/C05/*.glu: hand-picked programs, run first.  Each file is one expression (HDR and LIB are
+/// prepended); its value is held by the host across a collection, a garbage run and another collection.
+fn corpus_progs(rng: &mut Rng) -> Vec<Prog> {
+    let dir = std::path::Path::new(env!("CARGO_MANIFEST_DIR")).join("../corpus/C05");
+    let mut files: Vec<std::path::PathBuf> = std::fs::read_dir(&dir).map(|d| d.flatten().map(|e| e.path()).filter(|p| p.extension().map(|x| x == "glu").unwrap_or(false)).collect()).unwrap_or_default();
+    files.sort();
+    let mut out = vec![];
+    for p in files {
+        if let Ok(text) = std::fs::read_to_string(&p) {
+            let body: String = text.lines().filter(|l| !l.trim_start().starts_with("//")).collect::<Vec<_>>().join("\n");
+            let mut steps = vec![Step::Eval { src: format!("{}{}{}", HDR, LIB, body.trim_end()), expect: None, hold: true, guard: None }];
+            steps.push(Step::Collect);
+            steps.push(Step::Eval { src: format!("{}{}churn 600 \"\"", HDR, LIB), expect: Some(sh_string("ZZZZZ-sfx")), hold: false, guard: None });
+            steps.push(Step::CheckHandles);
+            let (g, e) = garbage(rng);
+            steps.push(Step::Eval { src: g, expect: Some(sh_int(e)), hold: false, guard: None });
+            steps.push(Step::Collect);
+            steps.push(Step::CheckHandles);
+            out.push(Prog { family: "corpus", steps });
+        }
+    }
+    out
+}
+
 fn prog_list(args: &Args) -> Vec<Prog> {
     let mut rng = Rng::new(args.seed);
-    let n = args.extra.get("programs").and_then(|s| s.parse().ok()).unwrap_or(if args.thorough() { 1200 } else { 60 });
-    (0..n).map(|i| gen_prog(&mut rng, i)).collect()
+    let n = args.extra.get("programs").and_then(|s| s.parse().ok()).unwrap_or(if args.thorough() { 1260 } else { 42 });
+    let mut progs = corpus_progs(&mut rng);
+    let c = progs.len();
+    progs.extend((0..n).map(|i| gen_prog(&mut rng, i)));
+    let _ = c;
+    progs
 }
 
 // ------------------------------------------------------------------------------------------------
@@ -321,6 +499,22 @@ fn run_steps(vm: &RootedThread, p: &Prog, tag: &str) -> RunResult {
                 });
                 check_events(&mut res, "load");
             }
+            Step::DefineCell { module, src } => {
+                let r = (|| -> Result<(), String> {
+                    let (v, typ) = vm.run_expr::<Val>("cell", &rename(src)).map_err(|e| e.to_string())?;
+                    let g = verif::graph(v.get_value());
+                    if g.nodes.first().map(|n| n.kind != "reference").unwrap_or(true) {
+                        return Err("the expression did not evaluate to a Reference".into());
+                    }
+                    vm.get_database_mut().set_global(&rename(module), typ, Default::default(), v.get_value());
+                    Ok(())
+                })();
+                res.outcomes.push(match r {
+                    Ok(()) => "loaded".into(),
+                    Err(e) => format!("load-error {}", esc(&e).chars().take(200).collect::<String>()),
+                });
+                check_events(&mut res, "define-cell");
+            }
             Step::Eval { src, hold, guard, .. } => {
                 // a module value that already holds a freed object is reported, not handed to the VM
                 // (running on poisoned memory would only abort the process)
@@ -344,6 +538,10 @@ fn run_steps(vm: &RootedThread, p: &Prog, tag: &str) -> RunResult {
                         let sh = shape(&verif::graph(v.get_value()));
                         if sh.contains("FREED") {
                             res.problems.push(("freed-in-result:eval".into(), format!("step {}: {}", si, sh)));
+                        } else {
+                            for (k, d) in trace_coverage(vm, &verif::graph(v.get_value())) {
+                                res.problems.push((k, format!("step {}: {}", si, d)));
+                            }
                         }
                         if *hold {
                             handles.push((v, sh.clone()));
@@ -367,6 +565,11 @@ fn run_steps(vm: &RootedThread, p: &Prog, tag: &str) -> RunResult {
                         let key = if now.contains("FREED") { "freed-in-handle" } else { "handle-changed" };
                         res.problems.push((key.into(), format!("step {}: was {} now {}", si, was, now)));
                     }
+                    if !now.contains("FREED") {
+                        for (k, d) in trace_coverage(vm, &verif::graph(h.get_value())) {
+                            res.problems.push((k, format!("step {}: {}", si, d)));
+                        }
+                    }
                     o.push(now);
                 }
                 res.outcomes.push(format!("handles[{}]", o.join(" && ")));
@@ -374,6 +577,9 @@ fn run_steps(vm: &RootedThread, p: &Prog, tag: &str) -> RunResult {
             Step::StoreCell { module, src } => {
                 let r = (|| -> Result<(), String> {
                     let cell = vm.get_global::<OpaqueValue<&gluon::Thread, Hole>>(&rename(module)).map_err(|e| e.to_string())?;
+                    if verif::graph(cell.get_value()).nodes.first().map(|n| n.kind != "reference").unwrap_or(true) {
+                        return Err("the global is not a Reference".into());
+                    }
                     let cell: RVal = vm.root_value_of(cell.get_variant());
                     let v = vm.run_expr::<Val>("fresh", &rename(src)).map_err(|e| e.to_string())?.0.into_inner();
                     let mut f: OwnedFunction<fn(Val, Val) -> IO<Val>> = OwnedFunction::from_value(set.vm(), set.get_variant());
@@ -396,6 +602,9 @@ fn run_steps(vm: &RootedThread, p: &Prog, tag: &str) -> RunResult {
                     let g = verif::graph(cell.get_value());
                     if g.nodes.iter().any(|n| n.freed) {
                         return Ok(format!("cell-holds-FREED {}", shape(&g)));
+                    }
+                    if g.nodes.first().map(|n| n.kind != "reference").unwrap_or(true) {
+                        return Err("the global is not a Reference".into());
                     }
                     let cell: RVal = vm.root_value_of(cell.get_variant());
                     let mut f: OwnedFunction<fn(Val) -> IO<Val>> = OwnedFunction::from_value(loadf.vm(), loadf.get_variant());
@@ -437,7 +646,7 @@ fn expected_steps(p: &Prog) -> Vec<Option<String>> {
     p.steps
         .iter()
         .map(|s| match s {
-            Step::Load { .. } => Some("loaded".to_string()),
+            Step::Load { .. } | Step::DefineCell { .. } => Some("loaded".to_string()),
             Step::Eval { expect, .. } => expect.clone(),
             Step::Collect => Some("collected".to_string()),
             Step::CheckHandles => None,
@@ -521,6 +730,7 @@ fn case_json(i: usize, p: &Prog, stride: usize) -> serde_json::Value {
         .iter()
         .map(|s| match s {
             Step::Load { module, src } => serde_json::json!({"load": module, "src": src}),
+            Step::DefineCell { module, src } => serde_json::json!({"define-cell": module, "src": src}),
             Step::Eval { src, expect, hold, .. } => serde_json::json!({"eval": src, "expect": expect, "hold": hold}),
             Step::Collect => serde_json::json!("collect"),
             Step::CheckHandles => serde_json::json!("check-handles"),
@@ -681,7 +891,7 @@ fn main() {
                             Some(Step::Eval { .. }) => "eval",
                             Some(Step::LoadCell { .. }) => "load-cell",
                             Some(Step::CheckHandles) => "handles",
-                            Some(Step::Load { .. }) => "load",
+                            Some(Step::Load { .. }) | Some(Step::DefineCell { .. }) => "load",
                             Some(Step::StoreCell { .. }) => "store-cell",
                             _ => "step",
                         };
